@@ -7,13 +7,13 @@ PROP = {
         # per-case watchdog (60 s) is four orders of magnitude away
         {"target": "c06_stream_rc", "sub": "bfd",
          "quick": {"cases": 3500, "max_size": 40, "workers": 6, "case_alarm": 60},
-         "thorough": {"cases": 80000, "max_size": 60, "workers": 6, "case_alarm": 60}},
+         "thorough": {"cases": 120000, "max_size": 60, "workers": 6, "case_alarm": 60}},
         {"target": "c06_stream_rc", "sub": "server",
          "quick": {"cases": 2500, "max_size": 40, "workers": 5, "case_alarm": 60},
-         "thorough": {"cases": 50000, "max_size": 60, "workers": 5, "case_alarm": 60}},
+         "thorough": {"cases": 75000, "max_size": 60, "workers": 5, "case_alarm": 60}},
         {"target": "c06_stream_rc", "sub": "client",
          "quick": {"cases": 2500, "max_size": 40, "workers": 5, "case_alarm": 60},
-         "thorough": {"cases": 50000, "max_size": 60, "workers": 5, "case_alarm": 60}},
+         "thorough": {"cases": 75000, "max_size": 60, "workers": 5, "case_alarm": 60}},
     ],
     "assumptions": [
         "SIGPIPE is ignored by the process (as tbox::main does); writes after the peer is gone are exercised for crash-freedom only",
